@@ -272,7 +272,12 @@ class Derivations:
                 for p, pre in cur.items():
                     for j, evs in self.item(x, p).items():
                         if j == p and k != 'rep':
-                            continue        # an empty iteration of * / + adds nothing new
+                            # an empty iteration of * / + adds nothing new -- except the single obligatory iteration of
+                            # a `+` over a nullable body, which is how `(x*)+` derives the empty string at all
+                            if any(b for b in evs):
+                                raise TooAmbiguous()    # empty iterations that leave placeholders: unboundedly many shapes
+                            if not (k == 'plus' and c == 1):
+                                continue
                         s = nxt.setdefault(j, set())
                         for a in pre:
                             for b in evs:
